@@ -78,6 +78,8 @@ def extract(path):
                 fs = []
                 for it in items:
                     it = re.sub(r'^pub(\([^)]*\))? ', '', it)
+                    if ':' not in it:
+                        continue
                     n, t = it.split(':', 1)
                     fs.append((n.strip(), ' '.join(t.split())))
                 structs[name] = fs
@@ -85,6 +87,8 @@ def extract(path):
                 vs, next_d = [], 0
                 for it in items:
                     mm = re.match(r'(\w+)\s*(\{(.*)\}|\((.*)\))?\s*(=\s*(\w+))?$', it, re.S)
+                    if mm is None:
+                        continue
                     if mm.group(6):
                         next_d = int(mm.group(6), 0)
                     if mm.group(3) is not None:
